@@ -3,15 +3,18 @@ from .. import gen, progx
 
 ID = "C02"
 BUILDS = ("pure", "compiled")
-RULE = "every program of the base family up to size n with every placement of <=k fault/try deviations (raise at any statement position, item error/unset, failing flush (Exception/BaseException/after setting), ErrorFuture, lazily computed Future ok/raising, non-future, try/except at any level, tuple/dict/nested shapes, shared tasks), every flush schedule, both builds; non-trivial = program with a >=2-way flush decision"
+RULE = "every program of the base family up to size n with every placement of <=k fault/try deviations (raise at any statement position, item error/unset, failing flush (Exception/BaseException/after setting/public cancel(error) from the flush body), empty and None yields after a caught error, ErrorFuture, lazily computed Future ok/raising, non-future, try/except at any level, tuple/dict/nested shapes, shared tasks), every flush schedule, both builds; non-trivial = program with a >=2-way flush decision"
 EXPLANATION = "stateless DFS over every flush schedule of every program on the real scheduler (both builds); each execution checked by online monitors and lock-step reference models (R1 sequential evaluator, R2 maximal-batching machine, R3 context model)"
 ASSUMPTIONS = [
     "values are opaque tokens; task bodies have no side effects besides the harness record",
     "exhaustive only within the alphabet and bounds listed in coverage.bounds",
 ]
-MENU = ["ins:raise", "ins:caught", "item:err", "item:errf", "item:unset", "flush:raise", "flush:raiseB", "flush:setraise", "leaf:ef", "leaf:lzok", "leaf:lzraise", "leaf:nf", "wrap:try", "shape:T", "shape:D", "shape:nest", "leaf:sh"]
+MENU = ["ins:raise", "ins:caught", "item:err", "item:errf", "item:unset", "flush:raise", "flush:raiseB", "flush:setraise", "flush:fcancel", "flush:fcancelraise", "flush:setfcancel", "leaf:ef", "leaf:lzok", "leaf:lzraise", "leaf:nf", "wrap:try", "shape:T", "shape:D", "shape:nest", "leaf:sh"]
 CATS = ["outcome-mismatch", "error-identity", "resumed-uncomputed", "nonfuture-typeerror", "spurious-error", "schedule-disagree", "value-shape", "started-missing", "provider-ran-twice", "hang", "worker-died"]
-LADDER = {"quick": [(4, 1, ["call"]), (3, 2, ["call", "av"]), (2, 3, ["call"])], "thorough": [(5, 1, ["call"]), (4, 2, ["call", "av"]), (3, 3, ["call"])]}
+# what a task does after it has caught an error: yields that carry no future at all, more errors, more handlers
+_AFTER = {"menu": ["ins:caught", "wrap:try", "item:err", "leaf:ef", "ins:raise", "ins:yempty", "ins:ynone", "leaf:n"]}
+LADDER = {"quick": [(4, 1, ["call"]), (3, 2, ["call", "av"]), (2, 3, ["call"]), (3, 2, ["call"], _AFTER), (2, 3, ["call"], _AFTER)],
+          "thorough": [(5, 1, ["call"]), (4, 2, ["call", "av"]), (3, 3, ["call"]), (4, 2, ["call"], _AFTER), (3, 3, ["call"], _AFTER)]}
 SPEC = {"r1": True, "r2": True}
 
 
